@@ -475,7 +475,7 @@ func init() {
 	lib.Register(&lib.Property{
 		ID:           "C15",
 		Level:        "exploration",
-		Rule:         "pairs (generic, equal shares of several old files = ties in the optimizer's mapping choice, many tiny files = many per-file goroutine triples, files of 0/1/16K±1/64K/128K+1 bytes); each diffed R times (6 quick / 16 thorough) with a different controller seed per run: source pool slicing every read to a random short length and yielding/spinning/sleeping, patch and signature sinks that perturb the diff and sign goroutines independently, GOMAXPROCS cycling 1/2/4/16; the second run uses a DiffContext object that has already diffed a decoy old build with the same paths, sizes and block counts; patch and signature bytes must be identical across runs; the optimizer is run R times for three parameter sets with the bsdiff hooks perturbing workers/dispatcher/collector on every other run and must produce identical bytes (two thirds of the runs share pools that earlier runs used). The same reduced list runs under the Go race detector; every de-duplicated report with a wharf frame in pwr/diff, multiread, taskgroup, ctxcopy, wsync, bsdiff or pwr/rediff is a violation. distinct = distinct (shape, compression, pair)",
+		Rule:         "pairs (generic, equal shares of several old files = ties in the optimizer's mapping choice, many tiny files = many per-file goroutine triples, files of 0/1/16K±1/64K/128K+1 bytes; plain flavour only: an old file of 2240 blocks in which seven distinct blocks recur in every part, diff runs only); each diffed R times (6 quick / 16 thorough) with a different controller seed per run: source pool slicing every read to a random short length and yielding/spinning/sleeping, patch and signature sinks that perturb the diff and sign goroutines independently, GOMAXPROCS cycling 1/2/4/16; the second run uses a DiffContext object that has already diffed a decoy old build with the same paths, sizes and block counts; patch and signature bytes must be identical across runs; the optimizer is run R times for three parameter sets with the bsdiff hooks perturbing workers/dispatcher/collector on every other run and must produce identical bytes (two thirds of the runs share pools that earlier runs used). The same reduced list runs under the Go race detector; every de-duplicated report with a wharf frame in pwr/diff, multiread, taskgroup, ctxcopy, wsync, bsdiff or pwr/rediff is a violation. distinct = distinct (shape, compression, pair)",
 		Assumptions:  []string{"the race detector only sees executed interleavings", "map iteration order cannot be controlled, only sampled by repetition"},
 		Flavors:      func(tier string) []string { return []string{"plain", "race"} },
 		Cases:        c15Cases,
